@@ -11,6 +11,7 @@ inductive CallKind
   | inst (m : InstMsg)
   | exec (c : Call)
   | probe (c : Call)     -- executed on a copy of the state: judged, never advances the history
+  | attempt (c : Call)   -- executed on a copy, judged exactly like `exec` (exhaustive exploration)
   | mig (m : MigMsg)
   | query (q : QueryMsg)
   deriving Repr, Inhabited
@@ -152,7 +153,7 @@ def stateProps (m : ExecMsg) : List String :=
   | _ => execKindProps m
 
 def unmodelledCall : CallKind → Bool
-  | .exec c | .probe c =>
+  | .exec c | .probe c | .attempt c =>
     (match c.msg with
      | .createAsk _ _ _ p _ => Dec.isUnmodelled p
      | .createBid _ _ _ p _ _ _ => Dec.isUnmodelled p
@@ -333,7 +334,7 @@ def judge (d : DState) : Verdict × DState :=
     -- outside the model's domain: adopt the implementation's state, judge nothing
     let s0 := d.st.getD emptyState
     let s' := if implOk then p.deltas.foldl applyDelta s0 else s0
-    let keep := match call with | .probe _ | .query _ => d.st | _ => some s'
+    let keep := match call with | .probe _ | .attempt _ | .query _ => d.st | _ => some s'
     -- the attribute-driven shadow and the requested role lists are independent of the model:
     -- keep them in step so that later steps of this history are judged from the right state
     let sh' := match call with
@@ -368,8 +369,9 @@ def judge (d : DState) : Verdict × DState :=
     (v, { d with st := if implOk then some s' else d.st,
                  shadow := ⟨[], []⟩, feeTracked := true,
                  roles := if implOk then some (m.approvers, m.executors) else d.roles })
-  | .exec c | .probe c =>
+  | .exec c | .probe c | .attempt c =>
     let isProbe := match call with | .probe _ => true | _ => false
+    let noAdvance := match call with | .exec _ => false | _ => true
     match d.st with
     | none => ({}, d)
     | some s =>
@@ -404,7 +406,7 @@ def judge (d : DState) : Verdict × DState :=
         | r, _ => r
       let sh' := if implOk && !isProbe then shadowStep d.shadow implResp.attrs else d.shadow
       let v := if implOk && !isProbe then v.check "C17" "C17_shadowOK" (C17_shadowOK sh' s') else v
-      if isProbe then (v, d)
+      if noAdvance then (v, d)
       else (v, { d with st := some s', shadow := sh', lastMig := if implOk then none else d.lastMig,
                         roles := roles' })
   | .mig m =>
